@@ -3,6 +3,7 @@
    extracted functions, prints integer lists.
 
    usage: driver world <fixed:0|1> <histories> <impl-transcripts>
+          driver saveload <uuid:0|1> <histories> <impl-transcripts>
    output per history:  model transcript line, then a verdict line
      "V <eq> <complete> <acc_pos> <acc_code> <c01d> <c02d>"              *)
 open Model
@@ -34,9 +35,7 @@ let line_of_transcript (t : z list list) : string =
   String.concat " | "
     (List.map (fun o -> String.concat " " (List.map (fun x -> string_of_int (int_of_z x)) o)) t)
 
-let () =
-  let domain = Sys.argv.(1) in
-  assert (domain = "world");
+let run_world () =
   let fixed = Sys.argv.(2) <> "0" in
   let hf = open_in Sys.argv.(3) in
   let tf = open_in Sys.argv.(4) in
@@ -55,3 +54,29 @@ let () =
      done
    with End_of_file -> ());
   close_in hf; close_in tf
+
+(* usage: driver saveload <uuid:0|1> <histories> <impl-transcripts>
+   output per history: model transcript line, then "V <eq>" *)
+let run_saveload () =
+  let uuid = Sys.argv.(2) <> "0" in
+  let hf = open_in Sys.argv.(3) in
+  let tf = open_in Sys.argv.(4) in
+  (try
+     while true do
+       let h = List.map z_of_int (ints_of_line (input_line hf)) in
+       let t = transcript_of_line (input_line tf) in
+       let m = saveload_transcript uuid h in
+       let eq = zlists_eqb m t in
+       print_string (line_of_transcript m);
+       print_newline ();
+       print_string ("V " ^ (if eq then "1" else "0"));
+       print_newline ()
+     done
+   with End_of_file -> ());
+  close_in hf; close_in tf
+
+let () =
+  match Sys.argv.(1) with
+  | "world" -> run_world ()
+  | "saveload" -> run_saveload ()
+  | d -> failwith ("unknown domain " ^ d)
